@@ -181,7 +181,7 @@ def make(name):
         if v == 'unsat':
             res.update(status='confirmed', message=r['message'])
         elif v == 'violation':
-            res.update(status='refuted', cex={'scenario': name, 'schedule': r['schedule'], 'amplify': r.get('amplify'), 'order_dependence': r.get('order_dependence', False)},
+            res.update(status='refuted', cex={'scenario': name, 'schedule': r['schedule'], 'amplify': r.get('amplify'), 'order_dependence': r.get('order_dependence', False), 'warm': bool(r.get('warm'))},
                        message='%s; replay on real threads: %r' % (r['message'], r['differs']))
         else:
             res.update(status='inconclusive', message='%s: %s' % (v, r.get('message')))
@@ -217,12 +217,14 @@ def replay(cex):
             return False, ('scenario %s: race on %s.%s; after %d overlapping renderings of one template object (same interleaving each time) a thread no longer gets its '
                            'solo result: %r' % (name, amp['loc'][0], amp['loc'][1], rnd, {k: (repr(a)[:100], repr(b)[:100]) for k, (a, b) in differs.items()}))
         return True, 'amplification (%d rounds) did not reproduce a difference' % done
+    warm = bool(cex.get('warm'))
     for attempt in range(3):
-        traces, solo = schedsmt.run_solo(mk, inputs, cooked, call_kw)
-        got = schedsmt.replay(mk, inputs, cooked, call_kw, order)
+        traces, solo = schedsmt.run_solo(mk, inputs, cooked, call_kw, warm)
+        got = schedsmt.replay(mk, inputs, cooked, call_kw, order, warm=warm)
         diff = {k: (solo[k], got.get(k)) for k in solo if got.get(k) != solo[k]}
         if diff:
-            return False, 'scenario %s: with the synthesised schedule thread results differ from solo results: %r' % (name, {k: (repr(a)[:100], repr(b)[:100]) for k, (a, b) in diff.items()})
+            return False, 'scenario %s%s: with the synthesised schedule thread results differ from solo results: %r' % (
+                name, ' (template rendered once beforehand by every thread body)' if warm else '', {k: (repr(a)[:100], repr(b)[:100]) for k, (a, b) in diff.items()})
         worst = got
     return True, 'schedule replayed 3 times without a difference: %r' % (worst,)
 
